@@ -52,7 +52,8 @@ fn c11_replay(inp: &str, outp: &str) {
     let mut w = NdjsonWriter::create(outp);
     for case in &cases {
         let out = match case["kind"].as_str().unwrap_or("cell") {
-            "cell" | "walk" | "double" => vh_core::catch(|| match case["kind"].as_str() {
+            "cell" | "walk" | "double" | "onehop" => vh_core::catch(|| match case["kind"].as_str() {
+                Some("onehop") => c11::replay_onehop_journey(case),
                 Some("walk") => c11::replay_walk(case),
                 Some("double") => c11::replay_double(case),
                 _ => c11::replay_cell(case),
